@@ -138,6 +138,12 @@ func runC09(sc *SessScript) *sim.Outcome {
 				s.Send(op.W&1, s.Text(op.W&1, op.L%100, op.F))
 			}
 			deliverAll()
+		case "fault":
+			// the next read of this party's randomness source fails (once): whatever step needed it is refused,
+			// and nothing may have been given up on the strength of a rotation that did not happen
+			p := s.W.P[op.W&1]
+			p.R.FailAt, p.R.FailFor, p.R.FailMode = p.R.Reads(), 1, op.I%2
+			o.Class("randomness-fault-armed")
 		case "refresh":
 			s.W.AgeClock(0, 3*60e9)
 			s.W.AgeClock(1, 3*60e9)
@@ -228,7 +234,7 @@ func init() { reg("C09disclose", runC09) }
 
 func TestProp_C09_Disclosure(t *testing.T) {
 	defer sim.MarkCompleted("C09disclose", false)
-	kinds := []string{"pp", "pp", "pp", "badmac", "badmac", "cross", "cross", "cross", "burst", "burst", "send", "send", "dl", "dl", "dl", "refresh", "smp", "ans", "xk", "age", "flush"}
+	kinds := []string{"pp", "pp", "pp", "badmac", "badmac", "cross", "cross", "cross", "burst", "burst", "send", "send", "dl", "dl", "dl", "refresh", "smp", "ans", "xk", "age", "flush", "fault", "fault"}
 	rapid.Check(t, func(rt *rapid.T) {
 		sc := &SessScript{Cfg: genSessCfg(rt)}
 		n := rapid.IntRange(2, 30).Draw(rt, "nops")
